@@ -724,6 +724,65 @@ func init() {
 		f := g.split(fuel-1, 2)
 		return call("slice.Map", Var{"_.A"}, SliceLit{[]Expr{g.Gen("R", env, f[0], PosExpr), g.Gen("R", env, f[1], PosExpr)}})
 	}})
+	// generic record: literal with inferred instantiation and field access through a variable
+	add(prod{name: "generic-record", block: true, app: any_, mk: func(g *Gen, t Type, env Env2, fuel, pos int) Expr {
+		f := g.split(fuel-1, 3)
+		r := g.freshName("g")
+		lit := RecordLit{Rec: "G", Fields: []FieldInit{{"V", g.Gen("int", env, f[0], PosExpr)}, {"Vs", SliceLit{[]Expr{g.Gen("int", env, f[1], PosExpr)}}}}}
+		a, b := g.freshName("fa"), g.freshName("fb")
+		body := g.blk(t, env.with(a, "int").with(b, "[]int"), f[2])
+		if !Uses(body, a) && !Uses(body, b) {
+			g.C.Skip("record unused")
+		}
+		sub := substVars(body, map[string]Expr{a: Field{Var{r}, "V"}, b: Field{Var{r}, "Vs"}}).(*Block)
+		return &Block{Stmts: append([]Stmt{Let{r, lit}}, sub.Stmts...), Final: sub.Final}
+	}})
+	// nested field access x.Fb.Fa on a record of a `type ... and ...` group
+	add(prod{name: "nested-field", block: true, app: any_, mk: func(g *Gen, t Type, env Env2, fuel, pos int) Expr {
+		f := g.split(fuel-1, 3)
+		r := g.freshName("q")
+		lit := RecordLit{Rec: "Tq", Fields: []FieldInit{{"Fb", RecordLit{Rec: "Tr", Fields: []FieldInit{{"Fa", g.Gen("int", env, f[0], PosExpr)}}}}, {"Fn", g.Gen("int", env, f[1], PosExpr)}}}
+		a, b := g.freshName("fa"), g.freshName("fb")
+		body := g.blk(t, env.with(a, "int").with(b, "int"), f[2])
+		if !Uses(body, a) {
+			g.C.Skip("nested field unused")
+		}
+		sub := substVars(body, map[string]Expr{a: Field{Field{Var{r}, "Fb"}, "Fa"}, b: Field{Var{r}, "Fn"}}).(*Block)
+		return &Block{Stmts: append([]Stmt{Let{r, lit}}, sub.Stmts...), Final: sub.Final}
+	}})
+	// 24 dict / buf: mutable library values used in sequence
+	add(prod{name: "dict-roundtrip", block: true, app: any_, mk: func(g *Gen, t Type, env Env2, fuel, pos int) Expr {
+		f := g.split(fuel-1, 3)
+		d := g.freshName("d")
+		a := g.freshName("fa")
+		body := g.blk(t, env.with(a, "int"), f[2])
+		if !Uses(body, a) {
+			g.C.Skip("dictionary unused")
+		}
+		sub := substVars(body, map[string]Expr{a: call("dict.Item", Var{d}, StrLit{"k"})}).(*Block)
+		stmts := []Stmt{
+			Let{d, App{Fn: "dict.New", TypeArgs: []Type{"string", "int"}, Args: []Expr{UnitLit{}}}},
+			ExprStmt{call("dict.Add", Var{d}, StrLit{"k"}, g.Gen("int", env, f[0], PosExpr))},
+			ExprStmt{call("dict.Add", Var{d}, StrLit{"k"}, g.Gen("int", env, f[1], PosExpr))}, // overwrites
+		}
+		return &Block{Stmts: append(stmts, sub.Stmts...), Final: sub.Final}
+	}})
+	add(prod{name: "buf-writes", block: true, app: any_, mk: func(g *Gen, t Type, env Env2, fuel, pos int) Expr {
+		f := g.split(fuel-1, 3)
+		b := g.freshName("bf")
+		s := g.freshName("t")
+		body := g.blk(t, env.with(s, "string"), f[2])
+		if !Uses(body, s) {
+			g.C.Skip("buffer unused")
+		}
+		stmts := []Stmt{
+			Let{b, call("buf.New", UnitLit{})},
+			ExprStmt{call("buf.Write", Var{b}, g.Gen("string", env, f[0], PosExpr))},
+			ExprStmt{BinOp{"|>", g.Gen("string", env, f[1], PosExpr), call("buf.Write", Var{b})}},
+			Let{s, call("buf.String", Var{b})},
+		}
+		return &Block{Stmts: append(stmts, body.Stmts...), Final: body.Final}
+	}})
 	// 22 constructors
 	add(prod{name: "ctor-I", rep: true, tiny: true, app: is("U"), mk: func(g *Gen, t Type, env Env2, fuel, pos int) Expr {
 		return Ctor{Case: "I", Arg: g.Gen("int", env, fuel-1, PosExpr)}
